@@ -15,6 +15,8 @@ def g(o, name):
 class Monitor(object):
     def __init__(self, static_voters=None):
         self.records = []
+        self.down_logs = {}
+        self.last_logs = {}
         self.stuck_reported = {}
         self.dump_seen = {}
         self.term_regress_reported = {}
@@ -59,7 +61,7 @@ class Monitor(object):
         # safety records of the same trace; before that trigger nothing is excused
         if finding is None and 'kf_c07_1' in self.trigger and prop in ('C01', 'C02', 'C03', 'C04', 'C10'):
             finding = 'KF-C07-1'
-        if finding is None and any(k.startswith('kf_c08_1') for k in self.trigger) and prop in ('C01', 'C02', 'C04'):
+        if finding is None and any(k.startswith('kf_c08_1') for k in self.trigger) and prop in ('C01', 'C02', 'C03', 'C04'):
             finding = 'KF-C08-1'       # acknowledged entries were lost by a kill inside the journal head drop
         if finding is not None:
             self.attributed.append((finding, prop, msg, self.step))
@@ -102,6 +104,8 @@ class Monitor(object):
                 self.kill_infos.append(dict(sim.kill_info, node=n, step=self.step))
                 if sim.abandoned is not None:
                     self.note_acks(sim, n, sim.abandoned)
+                    if self.journaled:
+                        self.down_logs[n] = self.log_of(sim.abandoned)
                 self.prev.pop(n, None)
                 self.prev_log.pop(n, None)
                 if sim.kill_info.get('in_delete_to'):
@@ -110,6 +114,8 @@ class Monitor(object):
             k = 'tick' if k == 'tickkill' else 'deliver'
             ev = ((k,) + tuple(ev[1:-1]))
         if k == 'kill':
+            if self.journaled and ev[1] in self.last_logs:
+                self.down_logs[ev[1]] = self.last_logs[ev[1]]     # what its journal file holds while it is down
             self.prev.pop(ev[1], None)
             self.prev_log.pop(ev[1], None)
             if ev[1] < RO_BASE and ev[1] not in self.retired and not self.journaled:
@@ -117,6 +123,7 @@ class Monitor(object):
                 self.trigger.setdefault('memory_loss', self.step)
             return
         if k == 'restart':
+            self.down_logs.pop(ev[1], None)
             self.prev.pop(ev[1], None)
             self.prev_log.pop(ev[1], None)
             self.incarnation[ev[1]] = self.incarnation.get(ev[1], 0) + 1
@@ -177,8 +184,8 @@ class Monitor(object):
                     for voters in (self.prev_members.get(nid, after), after):
                         holders = 0
                         for v in voters:
-                            if v in sim.nodes:
-                                lv = self.log_of(sim.nodes[v])
+                            if v in sim.nodes or v in self.down_logs:
+                                lv = self.log_of(sim.nodes[v]) if v in sim.nodes else self.down_logs[v]
                                 ev_ = self.entry_at(lv, idx)
                                 if (ev_ is not None and ev_[2] == e[2]) or (lv and lv[0][1] > idx):
                                     holders += 1
@@ -272,6 +279,7 @@ class Monitor(object):
                         self.rec('C04', 'log matching: nodes %d and %d agree on (position %d, term) but differ at position %d'
                                  % (nid, m, agree_from, idx))
                         break
+        self.last_logs[nid] = log
         self.prev[nid] = (commit, applied)
         self.prev_members[nid] = set(SIM.nid_of(x) for x in g(o, 'otherNodes')) | {nid}
 
@@ -399,10 +407,14 @@ class Monitor(object):
             for e in log:
                 if e[1] <= sent_upto:
                     ack[e[1]] = e[2]
-        # entries that were overwritten by a legitimate leader are no longer owed
+        # entries that were overwritten or truncated by a later leader while the node runs are no longer owed
+        # (whether such a truncation is legitimate is the business of the C01/C04 monitors)
         for e in log:
             if e[1] in ack and ack[e[1]] != e[2]:
                 ack[e[1]] = e[2]
+        if log:
+            for i in [i for i in ack if i > log[-1][1]]:
+                del ack[i]
 
     # ---- C06 / C07: journaled nodes across restarts ----------------------------------------------------
     def check_c06_c07(self, rec, sim, ev, nid, o):
